@@ -24,7 +24,7 @@ namespace FluentModel.Drv.LocDrv
 open FluentModel FluentModel.Fallback FluentModel.Localization FluentModel.Drv.FbDrv
 
 def locPool : List String := ["en", "pl", "de", "fr"]
-def idPool : List String := ["a", "b", "c", "d", "e"]
+def idPool : List String := ["a", "b", "c", "d", "e", "A", "B"]
 
 def idxOf (pool : List String) (x : String) : Nat := pool.findIdx (· == x)
 
